@@ -269,7 +269,7 @@ var linebreakAfter = map[string]string{
 }
 
 func ruleRC4() Rule {
-	return Rule{ID: "RC4", Kind: "must", Floor: 8,
+	return Rule{ID: "RC4", Kind: "must", Floor: 4,
 		Doc: "linebreak(), which consumes newlines (and comments) without returning them, is called only directly after emitting a token that the grammar follows by `linebreak`, and never from the raw token scanner, which cannot know the grammar position; so a newline that terminates a command is always delivered",
 		Run: func(c *Ctx, rr *core.RuleResult) {
 			lb := c.mustFn(rr, "parser.(*lexer).linebreak")
@@ -730,7 +730,7 @@ func ruleHD() Rule {
 	return Rule{ID: "HD", Kind: "must", Floor: 4,
 		Doc: "in the here-document body reader (lexHeredoc and the private helpers its code lives in): the delimiter comparison depends on the redirection's operator (<<- strips leading tabs, HD1); `$`, backquote and backslash are interpreted only under `!quoted`, and quoted is set exactly when a part of the delimiter word is a Quote (HD2) and belongs to one here-document (HD2b); a delimiter candidate must start in column 1 (HD4)",
 		Run: func(c *Ctx, rr *core.RuleResult) {
-			f := c.mustFn(rr, "parser.(*lexer).lexHeredoc")
+			f := c.heredocReader(rr)
 			if f == nil {
 				return
 			}
@@ -953,6 +953,17 @@ func ruleHD() Rule {
 										k++
 									}
 								}
+								// unnamed results: the variable returned at that position
+								h.OwnNodes(func(x ast.Node) bool {
+									if r, ok := x.(*ast.ReturnStmt); ok && i < len(r.Results) {
+										if rid, ok := ast.Unparen(r.Results[i]).(*ast.Ident); ok {
+											if o, ok := h.Info().Uses[rid].(*types.Var); ok && o.Type().String() == "bool" {
+												flags[o] = h
+											}
+										}
+									}
+									return true
+								})
 							}
 						}
 					}
@@ -1111,7 +1122,7 @@ func ruleHD() Rule {
 // fetch the operand through a function that reaches inc.
 
 func ruleHD6() Rule {
-	return Rule{ID: "HD6", Kind: "agreement", Floor: 4,
+	return Rule{ID: "HD6", Kind: "agreement", Floor: 2,
 		Doc: "every lexer state that emits a redirection operator (a case clause listing the `<<` token) fetches the operand word through a function that reaches heredoc.inc; a sibling that fetches it with the plain token scanner leaves the here-document uncounted, so its body is never read and is parsed as commands",
 		Run: func(c *Ctx, rr *core.RuleResult) {
 			pk := c.P.Pkgs["parser"]
